@@ -63,6 +63,7 @@ type PathResult struct {
 	Steps     int
 	KnownHit  []string
 	Recovered []string
+	ForkSites map[string]int
 }
 
 type Exec struct {
@@ -85,6 +86,8 @@ type Exec struct {
 	u64memo   map[string]*Term
 	extra     map[string]any
 	inits     []initRec
+	symPtrs   map[string]Ptr
+	curModel  string
 }
 
 func (e *Exec) end(status, why string) {
@@ -173,6 +176,14 @@ func (e *Exec) decide(alts []*Term) int {
 	}
 	if len(feas) > 1 {
 		e.res.Forks++
+		site := e.curModel
+		if site == "" && len(e.frames) > 0 {
+			site = e.frames[len(e.frames)-1].fn.Name()
+		}
+		if e.res.ForkSites == nil {
+			e.res.ForkSites = map[string]int{}
+		}
+		e.res.ForkSites[site]++
 	}
 	e.pos++
 	e.decisions = append(e.decisions, c)
@@ -261,6 +272,9 @@ func (e *Exec) callFn(fn *ssa.Function, args []Value) []Value {
 	name := fnName(fn)
 	if m, ok := models[name]; ok {
 		e.res.Stubs[name] = true
+		prev := e.curModel
+		e.curModel = "model:" + name
+		defer func() { e.curModel = prev }()
 		return m(e, args)
 	}
 	if strings.HasPrefix(fn.Name(), "verif") {
@@ -468,6 +482,7 @@ func (e *Exec) get(fr *Frame, v ssa.Value) Value {
 
 func (e *Exec) runBlocks(fr *Frame, b *ssa.BasicBlock) []Value {
 	var prev *ssa.BasicBlock
+	mergedInto := false
 	for {
 		// phis first (parallel assignment)
 		var phiVals []Value
@@ -476,6 +491,11 @@ func (e *Exec) runBlocks(fr *Frame, b *ssa.BasicBlock) []Value {
 			p, ok := ins.(*ssa.Phi)
 			if !ok {
 				break
+			}
+			if mergedInto {
+				phis = append(phis, p)
+				phiVals = append(phiVals, fr.env[p])
+				continue
 			}
 			idx := -1
 			for i, pb := range b.Preds {
@@ -493,6 +513,7 @@ func (e *Exec) runBlocks(fr *Frame, b *ssa.BasicBlock) []Value {
 		for i, p := range phis {
 			fr.env[p] = phiVals[i]
 		}
+		mergedInto = false
 		var next *ssa.BasicBlock
 		for _, ins := range b.Instrs[len(phis):] {
 			e.steps++
@@ -503,6 +524,13 @@ func (e *Exec) runBlocks(fr *Frame, b *ssa.BasicBlock) []Value {
 			case *ssa.If:
 				c := e.get(fr, x.Cond).(*Term)
 				sym := !c.IsConst()
+				if sym {
+					if j := e.tryMerge(fr, b, c); j != nil {
+						next = j
+						mergedInto = true
+						break
+					}
+				}
 				if e.decideBool(c) {
 					next = b.Succs[0]
 				} else {
@@ -534,6 +562,128 @@ func (e *Exec) runBlocks(fr *Frame, b *ssa.BasicBlock) []Value {
 		}
 		prev, b = b, next
 	}
+}
+
+// tryMerge: if-conversion of the short-circuit shapes (a && b, a || b in value context): one successor is
+// the join block, the other is a side-effect-free block that only jumps to the join. Both are evaluated
+// and the join's phis become if-then-else terms, instead of forking the path.
+func (e *Exec) tryMerge(fr *Frame, b *ssa.BasicBlock, c *Term) *ssa.BasicBlock {
+	if e.W.noMerge {
+		return nil
+	}
+	t, f := b.Succs[0], b.Succs[1]
+	var side, join *ssa.BasicBlock
+	sideOnTrue := false
+	isSide := func(s, j *ssa.BasicBlock) bool {
+		if len(s.Preds) != 1 || len(s.Instrs) == 0 || len(s.Instrs) > 12 {
+			return false
+		}
+		jmp, ok := s.Instrs[len(s.Instrs)-1].(*ssa.Jump)
+		if !ok || jmp.Block().Succs[0] != j {
+			return false
+		}
+		if len(j.Instrs) == 0 {
+			return false
+		}
+		if _, ok := j.Instrs[0].(*ssa.Phi); !ok {
+			return false
+		}
+		for _, ins := range s.Instrs[:len(s.Instrs)-1] {
+			if !e.pureInstr(fr, ins) {
+				return false
+			}
+		}
+		return true
+	}
+	switch {
+	case isSide(t, f):
+		side, join, sideOnTrue = t, f, true
+	case isSide(f, t):
+		side, join, sideOnTrue = f, t, false
+	default:
+		return nil
+	}
+	// operands of the side block must already be bound (they are: SSA dominance) — run it
+	for _, ins := range side.Instrs[:len(side.Instrs)-1] {
+		e.exec(fr, ins)
+	}
+	ib, is := -1, -1
+	for i, p := range join.Preds {
+		if p == b {
+			ib = i
+		}
+		if p == side {
+			is = i
+		}
+	}
+	if ib < 0 || is < 0 {
+		return nil
+	}
+	type pv struct {
+		p *ssa.Phi
+		v Value
+	}
+	var out []pv
+	for _, ins := range join.Instrs {
+		p, ok := ins.(*ssa.Phi)
+		if !ok {
+			break
+		}
+		vb, vs := e.get(fr, p.Edges[ib]), e.get(fr, p.Edges[is])
+		tb, ok1 := vb.(*Term)
+		ts, ok2 := vs.(*Term)
+		if !ok1 || !ok2 || tb.S != ts.S {
+			return nil
+		}
+		if sideOnTrue {
+			out = append(out, pv{p, Ite(c, ts, tb)})
+		} else {
+			out = append(out, pv{p, Ite(c, tb, ts)})
+		}
+	}
+	for _, x := range out {
+		fr.env[x.p] = x.v
+	}
+	return join
+}
+
+// pureInstr: cannot fork, panic, or touch anything but its own SSA value
+func (e *Exec) pureInstr(fr *Frame, ins ssa.Instruction) bool {
+	switch x := ins.(type) {
+	case *ssa.DebugRef:
+		return true
+	case *ssa.BinOp:
+		if x.Op == token.QUO || x.Op == token.REM {
+			return false
+		}
+		// operands must be scalars (struct/interface comparisons may need unsupported paths)
+		return isScalarType(x.X.Type()) && isScalarType(x.Y.Type())
+	case *ssa.UnOp:
+		if x.Op == token.MUL || x.Op == token.ARROW {
+			return false
+		}
+		return isScalarType(x.X.Type())
+	case *ssa.Convert:
+		return isScalarNumeric(x.X.Type()) && isScalarNumeric(x.Type())
+	case *ssa.ChangeType:
+		return isScalarType(x.X.Type())
+	}
+	return false
+}
+
+func isScalarNumeric(t types.Type) bool {
+	if typeKey(t) == "time.Duration" {
+		return false
+	}
+	_, _, ok := intInfo(t)
+	return ok
+}
+
+func isScalarType(t types.Type) bool {
+	if _, _, ok := intInfo(t); ok {
+		return true
+	}
+	return isBool(t) || isString(t)
 }
 
 func (e *Exec) exec(fr *Frame, ins ssa.Instruction) {
@@ -1090,6 +1240,14 @@ func (e *Exec) eqValue(a, b Value) *Term {
 		if ok && (x == nil || y == nil) {
 			return BoolT(x == nil && y == nil)
 		}
+	case DecV:
+		y, ok := b.(DecV)
+		if ok {
+			if x.Nil || y.Nil {
+				return BoolT(x.Nil && y.Nil)
+			}
+			return Eq(x.T, y.T)
+		}
 	case IntV:
 		y, ok := b.(IntV)
 		if ok {
@@ -1501,6 +1659,22 @@ func (e *Exec) lookup(fr *Frame, x *ssa.Lookup) Value {
 		i := e.concreteIndex(k.(*Term), len(s.Str), "string")
 		return BVU(uint64(s.Str[i]), 8)
 	}
+	if em, ok := base.(*ModelObj); ok && em.Kind == "enummap" {
+		kt, isT := k.(*Term)
+		if !isT {
+			e.unsupported("enum map lookup with a non-scalar key")
+		}
+		var val Value
+		if kt.S == StrSort {
+			val = App("enum.value."+em.Name, BV(32), kt)
+		} else {
+			val = App("str.enum."+em.Name, StrSort, kt)
+		}
+		if x.CommaOk {
+			return TupleV{val, App("enum.known."+em.Name, BoolSort, kt)}
+		}
+		return val
+	}
 	m, ok := base.(*MapV)
 	if !ok {
 		e.unsupported(fmt.Sprintf("Lookup on %T", base))
@@ -1684,6 +1858,11 @@ func (e *Exec) builtin(name string, args []Value, argTypes []types.Type) []Value
 		return []Value{IfaceV{}}
 	case "print", "println":
 		return nil
+	case "ssa:wrapnilchk":
+		if p, ok := args[0].(Ptr); ok && p.O == nil {
+			e.goPanicStr("value method called using nil pointer")
+		}
+		return []Value{args[0]}
 	case "min", "max":
 		r := args[0].(*Term)
 		for _, a := range args[1:] {
